@@ -2,6 +2,7 @@ package props
 
 import (
 	"fmt"
+	"runtime"
 	"strings"
 
 	"gorgonia.org/tensor"
@@ -183,7 +184,89 @@ func c01Shapes(r *core.Run) [][]int {
 	return ref.DedupShapes(ss)
 }
 
+// c01LibraryStorage: storage the LIBRARY allocates (New(Of(t), WithShape(...)), Clone, Materialize) holds what is written
+// into it across garbage collections - for the element types that hold pointers (strings) this needs the storage to be
+// visible to the collector. The collector is run explicitly and the heap refilled, so the check does not depend on when
+// a collection happens to occur; it can only miss, never alarm falsely.
+func c01LibraryStorage(r *core.Run) {
+	r.SetBound("library_allocated_storage", "String and float64 tensors of 64 and 600 elements built by New(Of), Clone and Materialize of a view; every element written with a freshly built value, 3 forced collections with the heap refilled in between, every element read back")
+	for _, d := range []ref.DT{ref.String, ref.Float64} {
+		for _, n := range []int{64, 600} {
+			for _, how := range []string{"New", "Clone", "Materialize"} {
+				if !r.Take() {
+					continue
+				}
+				d, n, how := d, n, how
+				id := fmt.Sprintf("C01|libstorage|%s|%d|%s", d.Name, n, how)
+				if r.ReplayCase != "" && id != r.ReplayCase {
+					continue
+				}
+				r.Case(id, true, func() *core.Fail {
+					tensor.VerifResetPools()
+					val := func(i int) interface{} {
+						if d.Name == "string" {
+							return fmt.Sprintf("element-%d-%s", i, strings.Repeat("x", 16+i%7)) // built at run time: lives on the heap
+						}
+						return float64(i) + 0.5
+					}
+					var t *tensor.Dense
+					switch how {
+					case "New":
+						t = tensor.New(tensor.Of(d.D), tensor.WithShape(n))
+					default:
+						src := tensor.New(tensor.Of(d.D), tensor.WithShape(2, n))
+						for i := 0; i < n; i++ {
+							src.SetAt(val(i), 1, i)
+						}
+						v, err := src.Slice(tensor.S(1))
+						if err != nil {
+							return nil
+						}
+						if how == "Clone" {
+							t = v.(*tensor.Dense).Clone().(*tensor.Dense)
+						} else {
+							t = v.Materialize().(*tensor.Dense)
+						}
+						src, v = nil, nil
+					}
+					if how == "New" {
+						for i := 0; i < n; i++ {
+							if err := t.SetAt(val(i), i); err != nil {
+								return core.F("unexpected-refusal", "set", "SetAt(%d): %v", i, err)
+							}
+						}
+					}
+					var junk [][]byte
+					for k := 0; k < 3; k++ {
+						runtime.GC()
+						for i := 0; i < 20000; i++ {
+							junk = append(junk, []byte(fmt.Sprintf("junk-%d-%d-%s", k, i, strings.Repeat("y", 12+i%9))))
+						}
+					}
+					r.Op(n)
+					bad, first := 0, -1
+					for i := 0; i < n; i++ {
+						v, err := t.At(i)
+						if err != nil || !ref.Same(v, val(i)) {
+							if first < 0 {
+								first = i
+							}
+							bad++
+						}
+					}
+					_ = junk
+					if bad > 0 {
+						return core.F("wrong-value", "gc", "%s tensor of %d elements in storage allocated by %s: after garbage collections %d elements read back as something else (first: element %d) - the storage is not visible to the collector", d.Name, n, how, bad, first)
+					}
+					return nil
+				})
+			}
+		}
+	}
+}
+
 func runC01(r *core.Run) {
+	c01LibraryStorage(r)
 	shapes := c01Shapes(r)
 	r.SetBound("coordinate_box", "[-2,dim+1] on every axis, complete; every arity 0..rank+1")
 	viewDT := map[string]int{"bool": 1, "uint8": 2, "int16": 1, "float32": 1, "float64": 2, "complex128": 1, "string": 1}
